@@ -91,6 +91,21 @@ static std::vector<size_t> cutsOf(const Str& spec, size_t len)
 	return c;
 }
 
+// a list of sizes in the given order (used cyclically)
+static std::vector<size_t> sizesOf(const Str& spec)
+{
+	std::vector<size_t> c;
+	if (spec == "-") return c;
+	size_t i = 0;
+	while (i < spec.size()) {
+		size_t j = spec.find(',', i);
+		if (j == Str::npos) j = spec.size();
+		c.push_back((size_t)atoll(spec.substr(i, j - i).c_str()) % 1073741825u);
+		i = j + 1;
+	}
+	return c;
+}
+
 struct Hdrs { std::vector<std::pair<Str, Str> > v; };
 
 // H<n> then 2n hex tokens
@@ -203,7 +218,7 @@ static bool planOf(const Toks& t, size_t& i, Plan& p)
 	if (k == "s" || k == "S") { // streamed parts: sizes a,b,c (cyclic until the body is used up); S = no final chunk
 		if (i + 1 >= t.size()) return false;
 		if (!bodyOf(t[i++], p.body)) return false;
-		p.parts = cutsOf(t[i++], 1u << 30);
+		p.parts = sizesOf(t[i++]);
 		p.endChunks = k == "s";
 		p.kind = 's';
 		return true;
@@ -1013,7 +1028,7 @@ static Str opSockio(const Toks& t)
 	Str out;
 	if (t[1] == "w") {
 		io.reader = true;
-		io.sched = cutsOf(t[3], 1u << 30);
+		io.sched = sizesOf(t[3]);
 		pthread_t th;
 		pthread_create(&th, 0, IoPeer::run, &io);
 		{
